@@ -365,6 +365,9 @@ pub enum React {
   Subscribe(usize),
 }
 
+/// `Reaction::at` value meaning "inside the terminal callback (error or complete)"
+pub const AT_TERMINAL: usize = 999;
+
 /// "when the n-th next (0-based) arrives at this recorder, do ..."
 #[derive(Clone, Debug, PartialEq, Eq, Hash, Serialize, Deserialize)]
 pub struct Reaction {
